@@ -153,14 +153,14 @@ def ensure_facts(config, thash=None, repo=REPO, verbose=False):
 
 
 def _gc(keep):
-    """Keep the fact caches of the 6 most recent tree states."""
+    """Keep the fact caches of the 16 most recent tree states."""
     base = os.path.join(CACHE, "facts")
     try:
         ds = [(os.path.getmtime(os.path.join(base, d)), d) for d in os.listdir(base)]
     except OSError:
         return
     ds.sort(reverse=True)
-    for _, d in ds[6:]:
+    for _, d in ds[16:]:
         if d != keep:
             shutil.rmtree(os.path.join(base, d), ignore_errors=True)
 
